@@ -30,6 +30,7 @@ DEFAULT_PROFILE = {
     'write_modes': ['last', 'last', 'last', 'last', 'first', 'none', 'fail_after', 'const'],
     'rets': ['acc', 'acc', 'acc', 'acc', 'const', 'nonjson'],
     'args': [0, 0, 1, 1, 'x', [1, 2], {'k': 1}, None, True, 1.0],
+    'kws': [{}, {}, {}, {'k': 1}, {'k': True}, {'k': 1.0}, {'opt': [1, 2], 'n': None}, {'k': {'a': [0]}}],
 }
 
 
@@ -73,13 +74,13 @@ def gen_stmts(rng, prof, idx, nfuncs, n, depth=0):
             if idx + 1 < nfuncs:
                 stmts.append(['bf', rng.choice(prof['paths']), 'H' if rng.random() < prof['p_hash'] else 'M',
                               rng.randrange(idx + 1, nfuncs), enc_simple(rng.choice(prof['args'])),
-                              enc_simple({}), rng.random() < prof['p_catch']])
+                              enc_simple(rng.choice(prof.get('kws', [{}]))), rng.random() < prof['p_catch']])
             continue
         t += prof['p_sb']
         if c < t:
             if idx + 1 < nfuncs:
                 stmts.append(['sb', rng.randrange(idx + 1, nfuncs), enc_simple(rng.choice(prof['args'])),
-                              enc_simple({}), rng.random() < prof['p_catch']])
+                              enc_simple(rng.choice(prof.get('kws', [{}]))), rng.random() < prof['p_catch']])
             continue
         t += prof['p_raise']
         if c < t:
@@ -314,8 +315,9 @@ def scen_dups(rng):
     p = rng.choice(PATHS2)
     first_fails = rng.random() < 0.4
     use_bf = rng.random() < 0.5
-    call = (lambda catch: _bf(p, 2, catch=catch)) if use_bf else (lambda catch: _sb(2, arg=[1, 2.0], catch=catch))
-    call2 = (lambda catch: _bf(p, 2, catch=catch)) if use_bf else (lambda catch: _sb(2, arg=(1.0, 2), catch=catch))
+    kwa, kwb = rng.choice([({}, {}), ({'k': 1}, {'k': 1.0}), ({'k': [1, {'a': 2}]}, {'k': (1, {'a': 2.0})}), ({'a': 1, 'b': 2}, {'b': 2, 'a': 1})])
+    call = (lambda catch: _bf(p, 2, catch=catch, kw=kwa)) if use_bf else (lambda catch: _sb(2, arg=[1, 2.0], catch=catch, kw=kwa))
+    call2 = (lambda catch: _bf(p, 2, catch=catch, kw=kwb)) if use_bf else (lambda catch: _sb(2, arg=(1.0, 2), catch=catch, kw=kwb))
     where = rng.choice(['same', 'nested', 'cached'])
     if where == 'same':
         root = [call(True), call2(True)]
@@ -397,7 +399,34 @@ def scen_reads(rng, modes=None, samemeta=False):
     return c
 
 
-SCENARIOS = [scen_nested_failure, scen_swap, scen_stale_dir, scen_dups, scen_versions, scen_reads]
+ARG_PAIRS = [  # (first build, second build, same JSON value?)
+    (1, 1.0, True), (1, True, False), (0, False, False), ([1, 2], (1, 2), True), ([1, 2], [2, 1], False),
+    ({'a': 1, 'b': 2}, {'b': 2, 'a': 1}, True), ({1: 'x'}, {'1': 'x'}, True), ({'a': 1}, {'a': 1, 'b': None}, False),
+    (None, 0, False), ('1', 1, False), (2 ** 70, float(2 ** 70), True), (-0.0, 0, True), ([], {}, False), ([[]], [()], True),
+    ({'k': True}, {'k': 1}, False), ({'k': [1.0]}, {'k': (1,)}, True), ('a', 'a', True), ([0], [], False),
+]
+
+
+def scen_identity(rng):
+    """the same call in consecutive builds with arguments that are / are not the same JSON value, as
+    positional argument or as keyword argument, for build_file and subbuild"""
+    a, b, _same = rng.choice(ARG_PAIRS)
+    p = rng.choice(PATHS2)
+    as_kw = rng.random() < 0.5
+    use_bf = rng.random() < 0.5
+
+    def call(v):
+        if as_kw:
+            return _bf(p, 1, arg=0, kw={'opt': v}) if use_bf else _sb(1, arg=0, kw={'opt': v})
+        return _bf(p, 1, arg=v) if use_bf else _sb(1, arg=v)
+    funcs = [_fn('f0', [['if', ['arg', _e(0)], [call(a)], [call(b)]]]),
+             _fn('f1', [['w', None]], rng.choice(['acc', {'const': _e('r')}]))]
+    funcs.append(_fn('rootfail', funcs[0]['stmts'] + [['raise', 99]]))
+    steps = [_build(arg=0), _build(arg=1), _build(arg=1), _build(arg=0)]
+    return {'tree': [], 'funcs': funcs, 'steps': steps}
+
+
+SCENARIOS = [scen_nested_failure, scen_swap, scen_stale_dir, scen_dups, scen_versions, scen_reads, scen_identity]
 
 
 def gen_scenario_cases(seed, per_family, dirsize=4096, families=SCENARIOS):
